@@ -1,9 +1,100 @@
-(** C34 — aggregate tracers compute exact statistics.  Property theorems only. *)
-From Akita Require Import Lib.Base C34.Model C34.Spec.
+(** C34 — aggregate tracers compute exact statistics.  Property theorems only.
+
+    A stream [evs] is the list of events a tracer receives, in program order.
+    [WF evs] (Spec.v): times never decrease, every task ID is started at most once
+    and ended at most once and not before it started, no TerminateAllTasks inside
+    the stream, times < 2^64.  The filtered tasks of a stream are given
+    declaratively: [is_task evs id s e] = the stream contains the start of [id] at
+    [s] passing the filter and its end at [e].  Every theorem quantifies over ANY
+    duplicate-free enumeration [L] of that set. *)
+From Akita Require Import Lib.Base C34.Model C34.Spec C34.Proofs1 C34.Proofs2 C34.Proofs3 C34.Proofs4 C34.Proofs5.
 Local Open Scope N_scope.
 
+(** TotalTimeTracer.TotalTime() = sum of the durations of the filtered tasks. *)
+Theorem c34_total_sum : forall evs L, WF evs -> NoDup L ->
+  (forall id s e, In (id, s, e) L <-> is_task evs id s e) -> sum_dur L < two64 ->
+  total_time evs = sum_dur L.
+Proof. exact total_sum. Qed.
+Print Assumptions c34_total_sum.
+
+(** AverageTimeTracer: TotalCount() = number of filtered tasks, AverageTime() =
+    floor(sum / count) (0 before the first task completes). *)
+Theorem c34_average_floor : forall evs L, WF evs -> NoDup L ->
+  (forall id s e, In (id, s, e) L <-> is_task evs id s e) -> sum_dur L < two64 ->
+  task_count evs = N.of_nat (length L) /\
+  average_time evs = (if N.of_nat (length L) =? 0 then 0 else sum_dur L / N.of_nat (length L)).
+Proof. exact average_floor. Qed.
+Print Assumptions c34_average_floor.
+
+(** BusyTimeTracer.BusyTime(), once every tracked task has ended, = number of unit
+    instants covered by the union of the tasks' intervals [start, end) — for every
+    overlap structure (overlapping, nested, chained, touching, disjoint, empty). *)
+Theorem c34_busy_union : forall evs L, WF evs -> NoDup L ->
+  (forall id s e, In (id, s, e) L <-> is_task evs id s e) ->
+  (forall id s, ~ is_running evs id s) ->
+  busy_time false evs = union_len (ivs_of L).
+Proof. exact busy_union. Qed.
+Print Assumptions c34_busy_union.
+
+(** ... and after TerminateAllTasks(now) the still-running tasks count up to [now]. *)
+Theorem c34_busy_terminate : forall evs now L R, WF evs ->
+  (forall e, In e evs -> ev_time e <= now) -> now < two64 -> NoDup L ->
+  (forall id s e, In (id, s, e) L <-> is_task evs id s e) ->
+  (forall id s, In (id, s) R <-> is_running evs id s) ->
+  busy_time false (evs ++ [ETerm now]) = union_len (ivs_of L ++ map (fun x => (snd x, now)) R).
+Proof. exact busy_terminate. Qed.
+Print Assumptions c34_busy_terminate.
+
+(** A tracer built with a nil filter tracks every task: it behaves as the filtered
+    tracer on the stream in which every start passes. *)
+Theorem c34_busy_nil_filter : forall evs, busy_time true evs = busy_time false (map force_pass evs).
+Proof. exact busy_time_nil. Qed.
+Print Assumptions c34_busy_nil_filter.
+
+(** The sweep evaluator used by the case checker computes the union length. *)
+Theorem c34_union_len_fast : forall l, (forall iv, In iv l -> fst iv <= snd iv) ->
+  union_len_fast l = union_len l.
+Proof. exact union_len_fast_correct. Qed.
+Print Assumptions c34_union_len_fast.
+
+(** TagCountTracer: per name, the number of tags recorded (any stream), and the
+    number of distinct tracked tasks that carried it (a task carries a tag when the
+    tag arrives after its filtered start and before its end). *)
+Theorem c34_tag_counts : forall evs name,
+  tag_count evs name = w64 (tag_events name evs) /\
+  (WF evs -> forall D, NoDup D -> (forall task, In task D <-> carried evs task name) ->
+   tag_task_count evs name = w64 (N.of_nat (length D))).
+Proof. exact tag_counts. Qed.
+Print Assumptions c34_tag_counts.
+
+Theorem c34_tag_names : forall evs,
+  NoDup (tag_names evs) /\ forall n, In n (tag_names evs) <-> exists task t, In (ETag task n t) evs.
+Proof. exact tag_names_spec. Qed.
+Print Assumptions c34_tag_names.
+
+(** Regression lemmas for the two defects fixed in /repo. *)
 Theorem c34_average_old_refuted :
   let evs := [EStart 1 0 true; EEnd 1 3; EStart 2 3 true; EEnd 2 3; EStart 3 4 true; EEnd 3 4] in
   average_time_old evs = 0 /\ average_time evs = 1 /\ total_time evs = 3 /\ task_count evs = 3.
 Proof. vm_compute. repeat split. Qed.
 Print Assumptions c34_average_old_refuted.
+
+Theorem c34_busy_chain_old_refuted :
+  let ivs := [(0, 10); (5, 20); (15, 30)] in
+  let evs := [EStart 1 0 true; EStart 2 5 true; EEnd 1 10; EStart 3 15 true; EEnd 2 20; EEnd 3 30] in
+  busy_old 3 ivs = 35 /\ union_len ivs = 30 /\ busy_time false evs = 30.
+Proof. vm_compute. repeat split. Qed.
+Print Assumptions c34_busy_chain_old_refuted.
+
+(** Non-vacuity: a well-formed stream with nested, chained and disjoint tasks, a
+    filtered-out task and tags; the hypotheses of the theorems are met and the
+    statistics are the expected ones. *)
+Example c34_nonvacuous :
+  let evs := [EStart 1 0 true; ETag 1 7 1; EStart 2 2 true; ETag 2 7 3; ETag 2 7 3; EEnd 2 4;
+              EStart 3 5 false; EStart 4 8 true; EEnd 1 10; EEnd 3 11; EEnd 4 15;
+              EStart 5 20 true; EEnd 5 22] in
+  wf_h (rev evs) = true /\
+  total_time evs = 21 /\ average_time evs = 5 /\ task_count evs = 4 /\ busy_time false evs = 17 /\
+  union_len [(0, 10); (2, 4); (8, 15); (20, 22)] = 17 /\
+  tag_count evs 7 = 3 /\ tag_task_count evs 7 = 2 /\ tag_names evs = [7].
+Proof. vm_compute. repeat split. Qed.
